@@ -77,6 +77,16 @@ inductive UpdateOutcome
   | inPlace | rebuilt
 deriving Repr, DecidableEq
 
+/-- the block list written in place, if the size difference can be absorbed by the first PADDING
+    block (`grow_padding` / `shrink_padding`; both work in `BlockSize`, i.e. at most 2^24-1) -/
+def adjustFor (oldSize newSize : Nat) (bl : List Block) : Option (List Block) :=
+  if newSize < oldSize then
+    (if oldSize - newSize ≤ maxBlockSize
+     then adjustFirstPadding (fun n => if n + (oldSize - newSize) ≤ maxBlockSize then some (n + (oldSize - newSize)) else none) bl else none)
+  else if newSize == oldSize then some bl
+  else (if newSize - oldSize ≤ maxBlockSize
+        then adjustFirstPadding (fun n => if newSize - oldSize ≤ n then some (n - (newSize - oldSize)) else none) bl else none)
+
 /-- `update_file(original, rebuilt, f)` on a file given as bytes: the file afterwards and the
     result.  `edit` is the callback (`none` = it returns an error). -/
 def updateFile (file : List Nat) (edit : List Block → Option (List Block)) : List Nat × Res UpdateOutcome :=
@@ -89,13 +99,7 @@ def updateFile (file : List Nat) (edit : List Block → Option (List Block)) : L
       match writeBlocks bl' with
       | .error e => (file, .error e)
       | .ok dry =>
-        let newSize := dry.length
-        let adjusted : Option (List Block) :=
-          if newSize < oldSize then
-            (if oldSize - newSize ≤ maxBlockSize then adjustFirstPadding (fun n => if n + (oldSize - newSize) ≤ maxBlockSize then some (n + (oldSize - newSize)) else none) bl' else none)
-          else if newSize == oldSize then some bl'
-          else (if newSize - oldSize ≤ maxBlockSize then adjustFirstPadding (fun n => if newSize - oldSize ≤ n then some (n - (newSize - oldSize)) else none) bl' else none)
-        match adjusted with
+        match adjustFor oldSize dry.length bl' with
         | some bl'' =>
           (match writeBlocks bl'' with
            | .error e => (file, .error e)      -- cannot happen (the dry run succeeded); kept total
